@@ -119,6 +119,7 @@ type State struct {
 	declared map[string]bool
 	next     Term
 	next0    Term
+	entryWF  bool // transient: compWFRefs also states the entry bound (see initComp)
 	cells    map[int]*Val
 	frame    *Frame
 	trace    []string
@@ -180,7 +181,12 @@ func (st *State) initComp(key string, sort Sort) Term {
 	if !st.declared[key] {
 		st.declared[key] = true
 		st.emit(fmt.Sprintf("(declare-const %s %s)", name, sort))
+		// the entry heap is well formed with respect to the allocation counter at entry as well: references
+		// stored in objects that existed then are older than anything allocated since ("older than now" alone
+		// does not separate them from memory allocated by callees in between); one quantifier carries both
+		st.entryWF = st.next0.S != "" && st.next0.S != st.next.S
 		st.compWF(key, Term{name, sort})
+		st.entryWF = false
 	}
 	return Term{name, sort}
 }
@@ -202,6 +208,11 @@ func (st *State) compWF(key string, t Term) {
 		zero := zeroOfSort(elemSortOf(elemSortOf(t.Sort)))
 		st.emit(fmt.Sprintf("(assert (forall ((mz Int) (kz %s)) (! (=> (not (select (select %s mz) kz)) (= (select (select %s mz) kz) %s)) :pattern ((select (select %s mz) kz)) :qid |mapzero.%s|)))", ks, dom.S, t.S, zero.S, t.S, strings.ReplaceAll(key, "|", "!")))
 	}
+	st.compWFRefs(key, t, "")
+}
+
+// compWFRefs: every reference stored in an allocated object is allocated (relative to st.next).
+func (st *State) compWFRefs(key string, t Term, tag string) {
 	// heap well-formedness: every reference stored in the heap is allocated
 	if kind := compRefKind[key]; kind != 0 && st.next.S != "" {
 		var vars []string
@@ -229,7 +240,11 @@ func (st *State) compWF(key string, t Term) {
 			extra = fmt.Sprintf(" (<= 0 (soff %s)) (<= 0 (slen %s)) (<= (slen %s) (scap %s)) (=> (= (sarr %s) 0) (= (scap %s) 0))", leaf.S, leaf.S, leaf.S, leaf.S, leaf.S, leaf.S)
 		}
 		// only allocated objects (first index below the allocation counter) are constrained
-		st.emit(fmt.Sprintf("(assert (forall (%s) (! (=> (< wf0 %s) (and (>= %s 0) (<= (+ (* %d %s) %d) %s)%s)) :pattern (%s) :qid |wf.%s|)))", strings.Join(vars, " "), st.next.S, r.S, allocFactor, r.S, allocFactor, st.next.S, extra, leaf.S, strings.ReplaceAll(key, "|", "!")))
+		entry := ""
+		if st.entryWF {
+			entry = fmt.Sprintf(" (=> (< wf0 %s) (<= (+ (* %d %s) %d) %s))", st.next0.S, allocFactor, r.S, allocFactor, st.next0.S)
+		}
+		st.emit(fmt.Sprintf("(assert (forall (%s) (! (and (=> (< wf0 %s) (and (>= %s 0) (<= (+ (* %d %s) %d) %s)%s))%s) :pattern (%s) :qid |wf%s.%s|)))", strings.Join(vars, " "), st.next.S, r.S, allocFactor, r.S, allocFactor, st.next.S, extra, entry, leaf.S, tag, strings.ReplaceAll(key, "|", "!")))
 	}
 }
 
